@@ -332,7 +332,9 @@ def extracted_sets(env, src, newstyle, policy):
 
 
 def KNOWN_PERCENT(install, decl, sing, plur, chosen):
-    """SUSPECTED_DEFECTS[0]: old style + declared variables + no reference in either body + '%' in the text that is shown."""
+    """SUSPECTED_DEFECTS[0]: old style + declared variables + no reference in either body + '%' in the text that is shown.
+    Repaired in /repo ("fix: a literal percent sign in a trans block with unused declared variables"): nothing is excluded."""
+    return False
     if INSTALLS[install][1]:
         return False
     if not DECLS[decl]:
